@@ -164,6 +164,17 @@ theorem request_granted_only_at_head (t t' : KState ℚ σ) (h : AUnit t t') (r 
     ∃ rest, (t.res r).putQ = e :: rest ∧ canPut t r e = true ∧ t' = grantPutSt t r e :=
   h.grant_put hk ho ho'
 
+/-- **Along every run, every granted request was first in the queue at the moment of its grant**: if `e` waits in a
+reachable state `s` and has been granted in a later state `s'`, the run passed (`UnitSeq`) through a state `t` in
+which `e` headed the queue and a slot was free, and continued from the state `_do_put` produced. -/
+theorem every_grant_was_at_head (body : σ → Resume → Burst ℚ σ) (fuel : Nat) (s0 s s' : KState ℚ σ)
+    (hW : WF s0) (hr0 : SafeReach body fuel s0 s) (hr : SafeReach body fuel s s') (r : ResId) (e : EvId)
+    (hk : (s.ev e).kind = .put r) (ho : (s.ev e).out = none) (ho' : (s'.ev e).out ≠ none) :
+    ∃ t rest, UnitSeq s t ∧ UnitSeq (grantPutSt t r e) s' ∧ (t.res r).putQ = e :: rest ∧ canPut t r e = true ∧
+      (t.ev e).out = none :=
+  have hWs := (reach_base body fuel s0 s hW hr0).2
+  (reach_units body fuel s s' hWs hr).grant_put_moment hk ho ho'
+
 /-! non-vacuity: `PriorityResource(capacity=1)`; requests with priorities 2 (granted at once), 1, 0, 1, then release of
 the first.  The queue is `[prio 0, prio 1 (older), prio 1 (newer)]` = events `[4, 3, 5]`; two kernel steps later the
 release has been processed and the priority-0 request (event 4, created after event 3) has been granted first. -/
